@@ -137,7 +137,13 @@ pub fn judge(ctx: &mut Ctx, r: &PortableRegistry, d: &SDesc, rng: &mut rand_chac
         let map = sub.retain(|id| roots.contains(&id));
         ctx.count("subregistries_compared", 1);
         let so = outcome(&sub, d);
-        if let (Ok((_, full)), Ok((_, part))) = (&base, &so) {
+        // with recursive registrations the reach of a root legitimately depends on which
+        // instantiations of it are present, so item equality under restriction is only demanded
+        // for settings without them
+        let has_recursive = d.specific.iter().any(|s| s.recursive);
+        if has_recursive {
+            ctx.count("restrictions_skipped_recursive_settings", 1);
+        } else if let (Ok((_, full)), Ok((_, part))) = (&base, &so) {
             for (p, item) in &part.items {
                 ctx.count("items_compared", 1);
                 match full.items.get(p) {
@@ -196,6 +202,21 @@ pub fn run(ctx: &mut Ctx) {
         }
         let mut d = SDesc::default();
         d.root = pick_root(&mut rng, &out.registry);
+        if case % 2 == 1 {
+            // settings whose effect depends on reachability: recursive and specific registrations
+            let paths: Vec<String> = crate::settingsgen::generated_paths(&out.registry).into_iter().filter(|p| p[0] != "bitvec").map(|p| p.join("::")).collect();
+            if !paths.is_empty() {
+                for k in 0..rng.gen_range(1..=3) {
+                    d.specific.push(crate::sdesc::SpecificDerive {
+                        path: paths.choose(&mut rng).unwrap().clone(),
+                        derives: vec![format!("::r{k}::D")],
+                        attrs: vec![],
+                        recursive: rng.gen_bool(0.8),
+                    });
+                }
+                ctx.count("cases_with_recursive_derives", 1);
+            }
+        }
         ctx.begin_case(&format!("c17 case {case}"));
         let regj = reg::to_json(&out.registry);
         let dj = serde_json::to_value(&d).unwrap();
